@@ -16,7 +16,7 @@ def nontrivial(kind, st, r):
         return g("m") >= 2 and g("reach") >= 2
     if kind in ("dfs", "kahn", "scc", "topo"):
         return g("n") >= 3 and g("m") >= 2
-    if kind in ("convseq", "race"):
+    if kind in ("convseq", "race", "redefgen"):
         return True
     if kind in ("sig", "vset", "opts", "result"):
         return g("size", 1) >= 1
@@ -125,9 +125,9 @@ PROPS = {
                  "thorough": [fam("call", 200000, 0), fam("call", 20000, 0, "malformed"), fam("sig", 50000, 5), fam("hist", 40000, 0), fam("redef", 30000, 0), fam("conv", 30000, 0)]},
     },
     "C02": {
-        "claim": "Theorems (graph level): C13.hopeless_reported, unsat_before_execution, exact_not_listed. Unsatisfiable calls are refused: error returned, target never run, no converter run with a missing argument, dedicated error type when every converter is satisfiable. Tied to the code by trace conformance on scenarios with a hopeless / underivable parameter (dead types, AND-unreachable converters, cycles) and the predicate evaluated on the real trace against the executable derivability fixpoint.",
+        "claim": "Theorems: C02.refused (execution level, any oracle/behaviour/fuel: with an underivable parameter the target is never executed and the call does not succeed), C13.hopeless_reported / unsat_before_execution (graph level). Unsatisfiable calls are refused: error returned, target never run, no converter run with a missing argument, dedicated error type when every converter is satisfiable. Tied to the code by trace conformance on scenarios with a hopeless / underivable parameter (dead types, AND-unreachable converters, cycles) and the predicate evaluated on the real trace against the executable derivability fixpoint.",
         "note": "derivability is computed under the matching table of C01 (a superset of what the library can match, so the premise is conservative).",
-        "theorems": ["ArgMapper.C13.hopeless_reported", "ArgMapper.C13.unsat_before_execution", "ArgMapper.C13.exact_not_listed"], "facts": {"r5SkipSame": "true", "r6NameTest": "true", "publishAfterUpdate": "true", "trackReaching": "true", "takeValuedNamed": "true", "memoCopy": "true"},
+        "theorems": ["ArgMapper.C13.hopeless_reported", "ArgMapper.C13.unsat_before_execution", "ArgMapper.C13.exact_not_listed", "ArgMapper.C02.refused", "ArgMapper.C02.refused_original_false"], "facts": {"r5SkipSame": "true", "r6NameTest": "true", "publishAfterUpdate": "true", "trackReaching": "true", "takeValuedNamed": "true", "memoCopy": "true"},
         "rule": "call: at least one function executed, or an unsatisfied error with a converter present.",
         "runs": {"quick": [fam("call", 500, 0, "hopeless"), fam("call", 300, 0, "general")],
                  "thorough": [fam("call", 60000, 0, "hopeless"), fam("call", 40000, 0, "general")]},
@@ -168,28 +168,29 @@ PROPS = {
     "C08": {
         "claim": "Theorems: inputs_filtered_fresh (every declared input passes the input filter and is not a supplied vertex, any oracle), output_filter, inputSet_root_adjacent, root_adjacent_supplied_or_permitted. Redefine yields a function over exactly the missing, permitted inputs. Tied to the code by replaying the planning run (redefine-mode reachTarget with zero-producing stand-ins) through the model: call graph with filter-gated root edges, requirement order, pop orders, paths and the declared input set are compared; the redefined function is then called and the inner Call is replayed as an ordinary call with the extra values.",
         "note": "premise of the property: single-input converters, no subtypes, one type per name (the generator respects it).",
-        "theorems": ["ArgMapper.C08.inputs_filtered_fresh", "ArgMapper.C08.declared_not_supplied", "ArgMapper.C08.output_filter", "ArgMapper.C08.inputSet_root_adjacent", "ArgMapper.C08.root_adjacent_supplied_or_permitted"], "facts": {"r5SkipSame": "true", "r6NameTest": "true", "publishAfterUpdate": "true", "trackReaching": "true", "takeValuedNamed": "true", "memoCopy": "true", "r8SkipSupplied": "true", "skipRecordsInput": "false", "dupIsError": "true"},
+        "theorems": ["ArgMapper.C08.inputs_filtered_fresh", "ArgMapper.C08.declared_not_supplied", "ArgMapper.C08.output_filter", "ArgMapper.C08.inputSet_root_adjacent", "ArgMapper.C08.root_adjacent_supplied_or_permitted"], "facts": {"r5SkipSame": "true", "r6NameTest": "true", "publishAfterUpdate": "true", "trackReaching": "true", "takeValuedNamed": "true", "memoCopy": "true", "r8SkipSupplied": "true", "skipRecordsInput": "false", "dupIsError": "true", "onceLockCoversCall": "true"},
         "rule": "redef: any planning run; call: at least one function executed.",
         "runs": {"quick": [fam("redef", 500, 0)], "thorough": [fam("redef", 40000, 0)]},
     },
     "C09": {
         "claim": "Theorem redefine_ignores_original_behaviour; purity is structural in the model (redefine returns no state). Redefine is pure planning: no user function body runs during Redefine and no function object is disturbed. Tied to the code by execution counters around every Redefine and by histories interleaving Redefine and Call on shared function objects, replayed through the model with the memo cells threaded.",
         "note": "converter generators (user code run while the graph is built) are outside the statement.",
-        "theorems": ["ArgMapper.C09.redefine_ignores_original_behaviour", "ArgMapper.C09.redefine_deterministic"], "facts": {"r5SkipSame": "true", "r6NameTest": "true", "publishAfterUpdate": "true", "trackReaching": "true", "takeValuedNamed": "true", "memoCopy": "true", "r8SkipSupplied": "true", "skipRecordsInput": "false", "dupIsError": "true"},
+        "theorems": ["ArgMapper.C09.redefine_ignores_original_behaviour", "ArgMapper.C09.redefine_deterministic"], "facts": {"r5SkipSame": "true", "r6NameTest": "true", "publishAfterUpdate": "true", "trackReaching": "true", "takeValuedNamed": "true", "memoCopy": "true", "r8SkipSupplied": "true", "skipRecordsInput": "false", "dupIsError": "true", "onceLockCoversCall": "true"},
         "rule": "redef: any planning run.",
-        "runs": {"quick": [fam("redef", 400, 0), fam("hist", 500, 0)], "thorough": [fam("redef", 30000, 0), fam("hist", 40000, 0)]},
+        "runs": {"quick": [fam("redef", 400, 0), fam("hist", 500, 0), fam("redefgen", 60, 0)],
+                 "thorough": [fam("redef", 30000, 0), fam("hist", 40000, 0), fam("redefgen", 3000, 0)]},
     },
     "C10": {
         "claim": "Theorems: convert_is_call, convert_failure, identity_shape, identity_error_shape, converted_value_is_injected (in the model Convert is callWith on the identity FuncDesc). Convert agrees with calling an identity function of the target type. In the model Convert *is* callWith on the identity FuncDesc; tied to the code by running, per scenario, the real Convert and the real Call on a harness-built func(T) T with the same options, replaying both through the model (targets: concrete, interface, error, pointer types; a user converter of the identity's own Go type included).",
         "note": "the library's own identity closure cannot be instrumented: its behaviour (returns its argument) is assumed in the replay of Convert runs.",
-        "theorems": ["ArgMapper.C10.convert_is_call", "ArgMapper.C10.convert_failure", "ArgMapper.C10.identity_shape", "ArgMapper.C10.identity_error_shape", "ArgMapper.C10.converted_value_is_injected"], "facts": {"r5SkipSame": "true", "r6NameTest": "true", "publishAfterUpdate": "true", "trackReaching": "true", "takeValuedNamed": "true", "memoCopy": "true", "r8SkipSupplied": "true", "skipRecordsInput": "false", "dupIsError": "true"},
+        "theorems": ["ArgMapper.C10.convert_is_call", "ArgMapper.C10.convert_failure", "ArgMapper.C10.identity_shape", "ArgMapper.C10.identity_error_shape", "ArgMapper.C10.converted_value_is_injected"], "facts": {"r5SkipSame": "true", "r6NameTest": "true", "publishAfterUpdate": "true", "trackReaching": "true", "takeValuedNamed": "true", "memoCopy": "true", "r8SkipSupplied": "true", "skipRecordsInput": "false", "dupIsError": "true", "onceLockCoversCall": "true"},
         "rule": "conv: at least one function executed, or an unsatisfied error with a converter present.",
         "runs": {"quick": [fam("conv", 500, 0), fam("convseq", 60, 0)], "thorough": [fam("conv", 50000, 0), fam("convseq", 2000, 0)]},
     },
     "C11": {
         "claim": "Theorems: once_at_most_once and first_result_kept over any history of calls; memo_hit; reuse_never_panics; the concurrent protocol theorem C12.once_concurrent (any number of threads, any schedule). A run-once function executes at most once over any history and later uses see the first result. Sequential part: histories of Call / Redefine on shared function objects are replayed through the model with the memo cells threaded, and the number of executions per run-once function is counted on the real trace. Concurrent part: see DESIGN.md (race-detector stress; not yet registered).",
         "note": "partial: the concurrent clause is decided by exploration under the race detector.",
-        "theorems": ["ArgMapper.C11.once_at_most_once", "ArgMapper.C11.first_result_kept", "ArgMapper.C11.memo_hit", "ArgMapper.C11.reuse_never_panics", "ArgMapper.C11.counterexample_ptr_result", "ArgMapper.C12.once_concurrent", "ArgMapper.C12.lock_holder_progresses", "ArgMapper.C12.counterexample_two_first_uses"], "facts": {"r5SkipSame": "true", "r6NameTest": "true", "publishAfterUpdate": "true", "trackReaching": "true", "takeValuedNamed": "true", "memoCopy": "true", "r8SkipSupplied": "true", "skipRecordsInput": "false", "dupIsError": "true"},
+        "theorems": ["ArgMapper.C11.once_at_most_once", "ArgMapper.C11.first_result_kept", "ArgMapper.C11.memo_hit", "ArgMapper.C11.reuse_never_panics", "ArgMapper.C11.counterexample_ptr_result", "ArgMapper.C12.once_concurrent", "ArgMapper.C12.lock_holder_progresses", "ArgMapper.C12.counterexample_two_first_uses"], "facts": {"r5SkipSame": "true", "r6NameTest": "true", "publishAfterUpdate": "true", "trackReaching": "true", "takeValuedNamed": "true", "memoCopy": "true", "r8SkipSupplied": "true", "skipRecordsInput": "false", "dupIsError": "true", "onceLockCoversCall": "true"},
         "rule": "hist: a run-once function was needed at least once.",
         "runs": {"quick": [fam("hist", 800, 0), fam("race", 60, 4, "20", bin="harness-race")],
                  "thorough": [fam("hist", 60000, 0), fam("race", 2000, 8, "60", bin="harness-race"), fam("race", 500, 16, "40", bin="harness-race")]},
@@ -197,7 +198,7 @@ PROPS = {
     "C12": {
         "claim": "Theorems: lock discipline implies no data race (guarded_race_free); the table of accesses to state outliving a call, regenerated from the sources on every run, obeys it (effects_guarded, by evaluation); the run-once protocol executes the body at most once for every schedule (once_concurrent). Functions, converters and options can be shared by concurrent calls. Decided by exploration under the Go race detector: goroutines Call / Convert / Redefine with one shared target, shared converter objects (run-once ones included) and one shared option slice built from every option constructor; any race report is a violation, and every concurrent outcome must be one a sequential run of the same call produced.",
         "note": "partial: schedules are sampled by the Go scheduler, not enumerated; the lock-discipline theorem over the extracted effects table is the proof-side obligation (DESIGN.md C12).",
-        "theorems": ["ArgMapper.C12.guarded_race_free", "ArgMapper.C12.effects_guarded", "ArgMapper.C12.C12_race_free", "ArgMapper.C12.counterexample_two_first_uses", "ArgMapper.C12.once_concurrent"], "facts": {"r5SkipSame": "true", "r6NameTest": "true", "publishAfterUpdate": "true", "trackReaching": "true", "takeValuedNamed": "true", "memoCopy": "true", "r8SkipSupplied": "true", "skipRecordsInput": "false", "dupIsError": "true"},
+        "theorems": ["ArgMapper.C12.guarded_race_free", "ArgMapper.C12.effects_guarded", "ArgMapper.C12.C12_race_free", "ArgMapper.C12.counterexample_two_first_uses", "ArgMapper.C12.once_concurrent"], "facts": {"r5SkipSame": "true", "r6NameTest": "true", "publishAfterUpdate": "true", "trackReaching": "true", "takeValuedNamed": "true", "memoCopy": "true", "r8SkipSupplied": "true", "skipRecordsInput": "false", "dupIsError": "true", "onceLockCoversCall": "true"},
         "rule": "race: every scenario (>= 4 goroutines x >= 20 rounds of Call/Convert/Redefine on shared objects).",
         "runs": {"quick": [fam("race", 80, 4, "25", bin="harness-race")],
                  "thorough": [fam("race", 3000, 8, "60", bin="harness-race"), fam("race", 600, 16, "50", bin="harness-race")]},
